@@ -828,16 +828,22 @@ def inline_self_helpers(F, f, prefix, depth=1):
                                 visit(x, d)
 
     def try_inline(m, d):
-        if m.get("k") != "MethodCall" or d > depth:
-            return None
-        r = peel(m["recv"])
-        if not (r.get("k") == "Path" and r.get("res") == "self"):
+        if m.get("k") not in ("MethodCall", "Call") or d > depth:
             return None
         c = callee_of(m) or ""
         g = F.fns.get(c)
-        if not g or "hir" not in g or not c.startswith(prefix) or c == f["path"] or c in inlined and False:
+        if not g or "hir" not in g or not c.startswith(prefix) or c == f["path"]:
             return None
-        params = [p_.get("name") for p_ in g["hir"]["params"]][1:]
+        if m["k"] == "MethodCall":
+            r = peel(m["recv"])
+            if not (r.get("k") == "Path" and r.get("res") == "self"):
+                return None
+            params = [p_.get("name") for p_ in g["hir"]["params"]][1:]
+        else:
+            # an associated function without a receiver: `Self::helper(a, &b)`
+            params = [p_.get("name") for p_ in g["hir"]["params"]]
+            if params and params[0] == "self":
+                return None
         if len(params) != len(m["args"]) or any(p_ is None for p_ in params):
             return None
         sub = {}
